@@ -369,6 +369,67 @@ def run(prog, rep, tier):
     if n_sites < 4:
         raise CheckerError("R7.7: only %d chrono conversion sites found in scope (expected at least 4)" % n_sites)
 
+    # ------------------------------------------------------------ R7.13 journal field payloads are never cut at a fixed position without a length test
+    # A field payload comes from the journal file as libsystemd found it: after damage it may lack its
+    # '=' or be empty.  Slicing it with a constant bound (`x[1..]`, `x[..4]`) panics when the payload is
+    # shorter - and a panic aborts the whole process (panic = "abort"), so every other source loses its
+    # output.  Positions returned by a search (`find_byte`) or clamped with `min(.., len)` are fine.
+    import slices as _sl7
+    R713 = rep.rule("R7.13", "constant slice bounds on journal field payloads are dominated by a length test")
+    n713 = 0
+    for p_ in sorted(prog.facts.bodies):
+        if not p_.startswith("s4lib::readers::journalreader::JournalReader::") or "{closure" in p_:
+            continue
+        jb = prog.body(p_)
+        for (c, _base, st_, en_) in _sl7.index_calls(jb):
+            n713 += 1
+            consts = [x for x in (st_, en_) if x is not None and x[0] == "k" and isinstance(x[1], int) and x[1] >= 1]
+            if not consts:
+                continue
+            guarded = False
+            for sbb in sorted(jb.live):
+                t = jb.term(sbb)
+                if t[0] == "switch" and sbb != c.bb and jb.dominates(sbb, c.bb):
+                    for o_ in jb.origins(t[1], through_calls=("ops::Not>::not",)):
+                        if o_[0] == "call" and o_[2].split("::")[-1] in ("len", "is_empty", "starts_with", "first", "get", "split_first", "strip_prefix"):
+                            guarded = True
+                        if o_[0] == "bin":
+                            s2 = jb.stmts(o_[1])[o_[2]]
+                            for x in (s2[2][2], s2[2][3]):
+                                if x[0] != "k" and any(y[0] == "call" and y[2].split("::")[-1] == "len" for y in jb.origins(x)):
+                                    guarded = True
+            rep.examined(R713, "%s|const-bound" % p_, sample={"fn": p_.split("::")[-1], "line": c.line, "constant_bounds": [x[1] for x in consts], "length_test_dominates": guarded})
+            if not guarded:
+                rep.violation(R713, "%s|const-bound|unguarded" % p_, "%s (line %d) slices a journal field payload at the fixed position %d with no length test before it; a damaged entry whose payload is shorter "
+                              "(a field that lost its '=') panics, and with panic=abort the process dies (exit 134) and no other source is printed" % (p_.split("::")[-1], c.line, consts[0][1]))
+    rep.examined(R713, "journalreader|range-index-sites", nontrivial=False, sample={"range_index_calls_in_JournalReader": n713})
+    if n713 < 8:
+        raise CheckerError("R7.13: only %d range-index calls in JournalReader (12 on the pinned tree)" % n713)
+
+    # ------------------------------------------------------------ R7.14 threshold tables that are looked up with unwrap() have no gap
+    # The stage-1 analysis looks the length of block zero up in range tables and unwraps the result.  The
+    # ranges therefore have to tile 0..max: a gap (an exclusive end one short of the next start) is a
+    # panic - and with panic=abort the end of the whole run - for exactly the files of that length.
+    import c12 as _c12
+    R714 = rep.rule("R7.14", "the ranges of every stage-1 threshold table tile 0..max without a gap")
+    tabs = _c12.threshold_tables(prog)
+    if len(tabs) < 2:
+        raise CheckerError("R7.14: %d threshold tables found (expected the line and the sysline table)" % len(tabs))
+    for tp, ents in sorted(tabs.items()):
+        es = sorted((e for e in ents if e[0] is not None), key=lambda e: e[0])
+        gaps = []
+        cur = 0
+        for st_, en_, _v, _ln in es:
+            if st_ > cur:
+                gaps.append((cur, st_))
+            cur = 18446744073709551615 if en_ == "max" else max(cur, en_ if en_ is not None else cur)
+        if cur != 18446744073709551615:
+            gaps.append((cur, "max"))
+        rep.examined(R714, tp.replace("::__static_ref_initialize", ""), sample={"table": tp.split("::")[-2], "ranges": [(a, b_) for a, b_, _v, _l in es], "gaps": gaps})
+        if gaps:
+            rep.violation(R714, tp.replace("::__static_ref_initialize", "") + "|gap", "%s has no entry for block lengths %s..%s (range ends are exclusive); the lookup is unwrapped, so a file whose block zero has such a length "
+                          "(e.g. exactly %s bytes, or any larger file read with --blocksz %s) panics and the process aborts before any source is printed" % (tp.split("::")[-2], gaps[0][0], gaps[0][1], gaps[0][0], gaps[0][0]))
+
     return rep.finish(
         "Static necessary-condition check against crashes/hangs from file content: (R7.1) for all strings of all 173 date regexes the converter's "
         "unwraps and month lookup cannot panic; (R7.2) fixed-size record fields are not read with an unbounded C-string scan on worker-reachable "
